@@ -1208,3 +1208,24 @@ def _(i, st, a, c):
         i.panics.append((tuple(st.pc), 'slice range %d..%d out of range for length %d' % (lo, hi, n), st))
         return []
     return Ref(r.base, r.path, (off + lo, hi - lo))
+
+
+@model(r'core::slice::<impl \[.*\]>::contains')
+def _(i, st, a, c):
+    v = i.deref_read(st, a[0])
+    x = i.deref_read(st, a[1])
+    res = False
+    for it in v.items:
+        res = b_or(res, cmp_('==', it, x))
+    return res
+
+
+@model(r'Option::unwrap_unchecked')
+def _(i, st, a, c):
+    v = a[0]
+    if isinstance(v, Var) and v.name == 'Some':
+        return v.items[0]
+    if isinstance(v, Var) and v.name == 'None':
+        i.panics.append((tuple(st.pc), 'UNDEFINED BEHAVIOUR: unwrap_unchecked on None', st))
+        return []
+    raise Unsupported('unwrap_unchecked on %r' % (v,))
